@@ -18,6 +18,8 @@ pub struct Elem {
     pub announce: Option<usize>,
     /// raw bytes to emit verbatim instead of tag/len/payload (foreign groups)
     pub raw: Option<Vec<u8>>,
+    /// bytes to emit instead of the computed length prefix (C02 length-form mutations)
+    pub prefix_override: Option<Vec<u8>>,
 }
 /// All items of one field at one struct level (Opt absent: no items; Vec: one per element).
 #[derive(Clone, Debug)]
@@ -29,6 +31,8 @@ pub struct Group {
     pub elems: Vec<Elem>,
     /// layout of the nested struct, if any
     pub nested: Option<String>,
+    /// value encoding of the field (Struct for nested)
+    pub enc: Enc,
 }
 
 fn prefix(len: &Len, n: usize) -> Vec<u8> {
@@ -69,10 +73,10 @@ pub fn build(t: &Table, l: &Layout, v: &Val) -> Result<Vec<Group>, String> {
                 Enc::Struct(n) => Node::Struct(build(t, &t[n], it)?),
                 e => Node::Leaf(enc_payload(t, e, it)?),
             };
-            elems.push(Elem { tag: f.tag, len: f.len.clone(), node, announce: None, raw: None });
+            elems.push(Elem { tag: f.tag, len: f.len.clone(), node, announce: None, raw: None, prefix_override: None });
         }
         let nested = if let Enc::Struct(n) = &f.enc { Some(n.clone()) } else { None };
-        out.push(Group { field: i, name: f.name.clone(), tag: f.tag, card: f.card, elems, nested });
+        out.push(Group { field: i, name: f.name.clone(), tag: f.tag, card: f.card, elems, nested, enc: f.enc.clone() });
     }
     Ok(out)
 }
@@ -86,7 +90,10 @@ pub fn assemble_elem(e: &Elem) -> Vec<u8> {
         Node::Struct(gs) => assemble(gs),
     };
     let mut o = e.tag.map(tag_bytes).unwrap_or_default();
-    o.extend(prefix(&e.len, e.announce.unwrap_or(payload.len())));
+    match &e.prefix_override {
+        Some(p) => o.extend(p.iter()),
+        None => o.extend(prefix(&e.len, e.announce.unwrap_or(payload.len()))),
+    }
     o.extend(payload);
     o
 }
